@@ -432,6 +432,7 @@ static void c15(long long seedv) {
     int64_t y; unsigned m, d; civil_from_days(z, y, m, d);
     c15_check_ldt(y, m, d, 0, 0, 0);
     c15_check_ldt(y, m, d, 23, 59, 59);
+    c15_check_ldt(y, m, d, 24, 0, 0);      // documented as a valid time of day (end of day): prints as written, parses back
     c15_check_ldt(y, m, d, rng.below(24), rng.below(60), rng.below(60));
     // LocalDate print: "yyyy-mm-dd Weekday"; parse of the date part
     LocalDate ld = LocalDate::forComponents((int16_t) y, m, d);
@@ -573,6 +574,15 @@ static void c15(long long seedv) {
         bool ok = c.err ? (c.got == c.want) : (c.got.find("<Invalid") == std::string::npos);
         if (!ok) { J j; j.str("type", c.what).num("component", comp).num("value", v).num("isError", c.err).str("got", c.got).str("want_if_error", c.want); witness("c15:placeholder", "error value does not print its documented placeholder", j); }
       }
+    }
+    {
+      OffsetDateTime o24 = OffsetDateTime::forComponents(2019, 3, 10, 24, 0, 0, TimeOffset::forMinutes(-210));
+      StrPrint q24; o24.printTo(q24); CNT.add("c15.placeholders_by_component");
+      OffsetDateTime b24 = OffsetDateTime::forDateString(q24.c_str());
+      if (o24.isError() || q24.buf != "2019-03-10T24:00:00-03:30" || b24 != o24) { J j; j.str("got", q24.buf).num("isError", o24.isError()); witness("c15:odt-print", "an offset date-time at 24:00:00 (a valid time of day) does not print as written and parse back", j); }
+      ZonedDateTime z24 = ZonedDateTime::forComponents(2019, 3, 10, 24, 0, 0, TimeZone::forTimeOffset(TimeOffset::forHours(1)));
+      StrPrint qz24; z24.printTo(qz24);
+      if (z24.isError() || qz24.buf != "2019-03-10T24:00:00+01:00[+01:00+00:00]") { J j; j.str("got", qz24.buf).num("isError", z24.isError()); witness("c15:zdt-manual-print", "a zoned date-time at 24:00:00 in a manual zone does not print as written", j); }
     }
     OffsetDateTime eo = OffsetDateTime::forComponents(2019, 3, 10, 2, 30, 15, TimeOffset::forError());
     StrPrint qe; eo.printTo(qe); CNT.add("c15.placeholders_by_component");
